@@ -116,6 +116,9 @@ const DEVS: [Dev; 38] = [
 
 #[derive(Clone, Debug, Serialize, Deserialize)]
 pub struct Case {
+    /// entry-point sweep case (see sweep.rs); the other fields are ignored
+    #[serde(default)]
+    pub sweep: Option<crate::sweep::SweepCase>,
     pub example_app: bool,
     pub dev: Dev,
     pub chain: u8,
@@ -157,25 +160,31 @@ impl Property for C16 {
         tier.pick(20000, 200000)
     }
     fn strategy(&self, _tier: Tier) -> BoxedStrategy<Case> {
-        (any::<bool>(), prop::sample::select(DEVS.to_vec()), 0u8..3, 0u8..5, 0u8..3, 0u16..600, any::<u64>(), prop::sample::select(DAYS.to_vec()), prop::sample::select(DAYS.to_vec()))
-            .prop_map(|(example_app, dev, chain, id, src, payload_len, seed, days_before, days_after)| Case { example_app, dev, chain, id, src, payload_len, seed, days_before, days_after, rotation_after: (seed % 5).min(2) as u8 % 3, its_app: seed % 4 == 3 })
-            .boxed()
+        let direct = (any::<bool>(), prop::sample::select(DEVS.to_vec()), 0u8..3, 0u8..5, 0u8..3, 0u16..600, any::<u64>(), prop::sample::select(DAYS.to_vec()), prop::sample::select(DAYS.to_vec()))
+            .prop_map(|(example_app, dev, chain, id, src, payload_len, seed, days_before, days_after)| Case { sweep: None, example_app, dev, chain, id, src, payload_len, seed, days_before, days_after, rotation_after: (seed % 5).min(2) as u8 % 3, its_app: seed % 4 == 3 });
+        let direct = direct.boxed();
+        let blank = Case { sweep: None, example_app: true, dev: Dev::None, chain: 0, id: 0, src: 0, payload_len: 0, seed: 0, days_before: 0, days_after: 0, rotation_after: 0, its_app: false };
+        match crate::sweep::strategy(crate::sweep::Rule::Redeliver) {
+            Some(sw) => prop_oneof![9 => direct, 1 => sw.prop_map(move |s| Case { sweep: Some(s), ..blank.clone() })].boxed(),
+            None => direct,
+        }
     }
     fn fixed_cases(&self, _tier: Tier) -> Vec<Case> {
-        let mut v = vec![];
+        let blank = Case { sweep: None, example_app: true, dev: Dev::None, chain: 0, id: 0, src: 0, payload_len: 0, seed: 0, days_before: 0, days_after: 0, rotation_after: 0, its_app: false };
+        let mut v: Vec<Case> = crate::sweep::fixed_cases(300).into_iter().map(|s| Case { sweep: Some(s), ..blank.clone() }).collect();
         for example_app in [true, false] {
             for dev in DEVS {
-                v.push(Case { example_app, dev, chain: 0, id: 0, src: 0, payload_len: 10, seed: 1, days_before: 0, days_after: 0, rotation_after: 0, its_app: false });
+                v.push(Case { sweep: None, example_app, dev, chain: 0, id: 0, src: 0, payload_len: 10, seed: 1, days_before: 0, days_after: 0, rotation_after: 0, its_app: false });
                 if example_app {
-                    v.push(Case { example_app, dev, chain: 0, id: 0, src: 0, payload_len: 10, seed: 1, days_before: 0, days_after: 0, rotation_after: 0, its_app: true });
+                    v.push(Case { sweep: None, example_app, dev, chain: 0, id: 0, src: 0, payload_len: 10, seed: 1, days_before: 0, days_after: 0, rotation_after: 0, its_app: true });
                 }
                 if matches!(dev, Dev::None | Dev::DeliveredTwice | Dev::ResubmittedApprovalAfterDelivery | Dev::ReapprovedOtherContentAfterDelivery | Dev::ResubmittedBesideSiblingAfterDelivery(_)) {
                     for r in [1u8, 2] {
-                        v.push(Case { example_app, dev, chain: 0, id: 0, src: 0, payload_len: 10, seed: 1, days_before: 0, days_after: 0, rotation_after: r, its_app: false });
+                        v.push(Case { sweep: None, example_app, dev, chain: 0, id: 0, src: 0, payload_len: 10, seed: 1, days_before: 0, days_after: 0, rotation_after: r, its_app: false });
                     }
                     for d in [31u16, 61, 150] {
-                        v.push(Case { example_app, dev, chain: 0, id: 0, src: 0, payload_len: 10, seed: 1, days_before: 0, days_after: d, rotation_after: 0, its_app: false });
-                        v.push(Case { example_app, dev, chain: 0, id: 0, src: 0, payload_len: 10, seed: 1, days_before: d, days_after: 0, rotation_after: 0, its_app: false });
+                        v.push(Case { sweep: None, example_app, dev, chain: 0, id: 0, src: 0, payload_len: 10, seed: 1, days_before: 0, days_after: d, rotation_after: 0, its_app: false });
+                        v.push(Case { sweep: None, example_app, dev, chain: 0, id: 0, src: 0, payload_len: 10, seed: 1, days_before: d, days_after: 0, rotation_after: 0, its_app: false });
                     }
                 }
             }
@@ -184,6 +193,9 @@ impl Property for C16 {
     }
 
     fn run(&self, case: &Case, cx: &mut Cx) -> Result<(), String> {
+        if let Some(sw) = &case.sweep {
+            return crate::sweep::run(sw, cx, crate::sweep::Rule::Redeliver);
+        }
         let itsw = if case.its_app { Some(crate::itsw::build_its_world("stellar", "hub-address", 2)) } else { None };
         let env = match &itsw {
             Some(w) => w.env.clone(),
